@@ -3,7 +3,10 @@ import common
 
 CONFIG = {
     "rule": "cases = (S) interactive sessions: programs of a small Python fragment (assignments, expression statements incl. None-valued, "
-            "if/else, for-range, while, def/call/return, del, `;`-joined statements; multi-line brackets, triple-quoted strings, backslash continuation, "
+            "if/else, for-range, while, def/call/return, del, `;`-joined statements; multi-line brackets, triple-quoted strings, backslash continuation "
+            "(also inside a single-quoted string), decorators, class statements with nested defs, with / try-except-finally blocks, nested defs, default arguments, lambda, "
+            "list/dict displays over several lines with comments and empty lines inside, unicode identifiers and strings, lines of 200-2000 characters, "
+            "the user rebinding / deleting `_`, instances whose __repr__ raises while being echoed, "
             "comments, empty and whitespace-only lines, empty lines inside brackets/strings, nested blocks; statements with syntax errors on one line or "
             "inside a block, compile-stage errors, NameError/ZeroDivisionError/TypeError at run time) fed to the real repl.REPL one physical line at a time "
             "through a recording repl.UI, observing after EVERY line the prompt, the Print calls, the traceback class on stderr and the session module's globals, "
@@ -17,13 +20,18 @@ CONFIG = {
         "lean/GPy/C20/Model.lean: hand transliteration of repl/repl.go (Run, needsMoreInput, blank/comment case), (*Exception).Error(), compile.go's ExprStmt rule and vm.do_PRINT_EXPR; "
         "tied to /repo by the correspondence run only (prompt, prints, stderr class, globals and the unexported fields continuation/len(previous) after every line)",
         "lean/GPy/C20/Lang.lean: evaluator of the statement fragment shared by model and spec (they differ only in the expression-statement hook); tied to the real compiler+VM by the same run",
-        "the compile pipeline (lexer in interactive mode, single_input grammar, compiler) is NOT modelled: it is the oracle `World.compile`; its contract is checked on the real "
-        "py.Compile for every generated statement by the O cases, not proved (DESIGN's incomplete_iff_prefix is still missing)",
+        "lean/GPy/C20/Pipe.lean: the compile pipeline in single mode for VALID statements and skipped lines = the C06 lexer model (GPy.C06.step, interactive mode) driven with the "
+        "lexer's eof flag recorded per token + ErrorReturn's rule (bare parse error: 'unexpected EOF while parsing' iff x.eof) + 'a lexer error after the end of a newline-terminated "
+        "input is a string literal running into it' (hand analysis of lexer.go, tied by the O cases) + the yacc parser as an UNMODELLED online machine `Grammar.status` "
+        "(assumed only: its verdict is a function of the tokens fed so far); incomplete_iff_prefix / lexer_lockstep / repl_equiv_modelled are proved for every such parser",
+        "the generated sessions instantiate `Grammar.status` from the complete valid statements of the session (accept exactly their token sequences, wait on their prefixes); "
+        "for statements Python rejects the answers of py.Compile stay an oracle table with the contract of Spec.lean; both are checked on the real py.Compile by the O cases",
         "harness/c20.go and checks/common.py (case transport, stderr capture through a pipe, canonical namespace text)",
     ],
     "assumptions": [
         "programs follow the interactive grammar: no empty line inside an indented block (an empty line ends a compound statement, as in CPython's REPL); lines contain no newline",
-        "`_` is bound in the session module's globals (gpython) rather than in builtins (CPython); sessions never assign `_` themselves",
+        "`_` is bound in the session module's globals (gpython) rather than in builtins (CPython): a user assignment to `_` is overwritten by the next echo (in CPython it would shadow builtins._)",
+        "classes are only those with a __repr__ method (returning a text or raising ZeroDivisionError) and the context manager CM; functions are never echoed (their repr contains an address); no closures",
         "SystemExit leaving REPL.Run, input(), print() (stdout) and the completer are not modelled; exception messages are not compared, only classes",
         "the fragment's values are ints, strs, bools, None and user functions; bool arithmetic (C07-K01) and string ordering are not generated",
     ],
